@@ -14,6 +14,8 @@ ROOT = os.path.dirname(os.path.dirname(os.path.abspath(__file__)))
 PY_CH = os.path.join(ROOT, '.venv', 'bin', 'python')
 PY_PLAIN = '/venv/bin/python'
 MAX_KNOWN_ROUNDS = 12
+# VP_SCRATCH (mutant self-test only): evidence and replay files go there instead of /verif
+OUT = os.environ.get('VP_SCRATCH') or ROOT
 
 
 def log(*a):
@@ -250,7 +252,7 @@ def check(pid, tier, only=None, jobs=None, verbose=False):
                 continue
             # a violation the file does not list
             digest = hashlib.sha1(json.dumps([n, r['args']], sort_keys=True, default=repr).encode()).hexdigest()[:10]
-            rdir = os.path.join(ROOT, 'replays', pid)
+            rdir = os.path.join(OUT, 'replays', pid)
             os.makedirs(rdir, exist_ok=True)
             rpath = os.path.join(rdir, '%s-%s.json' % (re.sub(r'[^A-Za-z0-9_.-]+', '_', n), digest))
             json.dump({'property': pid, 'obligation': n, 'module': modname, 'fn': o['fn'], 'config': o.get('config', {}),
@@ -322,9 +324,9 @@ def check(pid, tier, only=None, jobs=None, verbose=False):
         'wall_s': round(time.time() - t0, 2),
         'violations': len(violations),
     }
-    os.makedirs(os.path.join(ROOT, 'evidence'), exist_ok=True)
+    os.makedirs(os.path.join(OUT, 'evidence'), exist_ok=True)
     if not only:
-        json.dump(ev, open(os.path.join(ROOT, 'evidence', pid + '.json'), 'w'), indent=1, default=repr)
+        json.dump(ev, open(os.path.join(OUT, 'evidence', pid + '.json'), 'w'), indent=1, default=repr)
 
     by = {}
     for f in finals:
